@@ -313,7 +313,7 @@ def main : IO Unit := do
   let da := match (← IO.getEnv "DV_ADM_DEFECTS") with
     | some "none" => Adm.Defects.none
     | some "beforeFixes" => Adm.Defects.beforeFixes
-    | some "jsonNullPanics" => { jsonNullPanics := true, emptyKeyPanics := false }
-    | some "emptyKeyPanics" => { jsonNullPanics := false, emptyKeyPanics := true }
+    | some "jsonNullPanics" => { jsonNullPanics := true, emptyKeyPanics := false, dateRangePanics := false, unboundedFirstFrame := false }
+    | some "emptyKeyPanics" => { jsonNullPanics := false, emptyKeyPanics := true, dateRangePanics := false, unboundedFirstFrame := false }
     | _ => Adm.Defects.asImplemented
   loop (← IO.getStdin) (← IO.getStdout) (SchemaDriver.stepLine d da) SchemaDriver.St.init
